@@ -165,7 +165,7 @@ func c12whenProbe(c *core.Ctx) {
 
 func C12(c *core.Ctx) {
 	c12whenProbe(c)
-	c.Rule = "edit scenarios (strategy upsert/insert/update through the From and the Into entry points, replace and delete; generated schema and trees; entry point root / container / list entry so that the edit root has 0–3 ancestors) on recording reference stores for source and target; each scenario runs once fault-free to learn its K node callbacks, then K more times with callback k = 1…K failing (exhaustive per scenario); trace (Begin/End/other with the failing one marked) and result are compared with the Lean bracket model, and errors.As must find the injected error. non-trivial = faulted run whose failing callback is not the first; distinct by (scenario, k)"
+	c.Rule = "edit scenarios (strategy upsert/insert/update through the From and the Into entry points, replace and delete; generated schema and trees; entry point root / container / list entry so that the edit root has 0–3 ancestors) on recording reference stores for source and target; each scenario runs once fault-free to learn its K node callbacks, then K more times with callback k = 1…K failing (exhaustive per scenario); trace (Begin/End/other with the failing one marked) and result are compared with the Lean bracket model, and errors.As must find the injected error; a quarter of the scenarios start from a selection on a leaf; every eighth runs on a schema with when conditions (their operand reads are callbacks that can fail); 15% of the targets are a nodeutil.Tee of two recording stores (bracket balance per node checked directly). non-trivial = faulted run whose failing callback is not the first; distinct by (scenario, k)"
 	c.Assumptions = append(c.Assumptions,
 		"the scenario tree is parsed from the fault-free trace of the real code: consecutive Begin events form one bubbling group",
 		"Choose callbacks do not occur in these scenarios (no choices in the generated schemas); the documented swallowing of target Choose errors is outside this check")
